@@ -358,11 +358,20 @@ func (g *gen) postCases(thorough bool) {
 	}
 	single[len(single)-1][0].Pad = 1 << 20
 	single[len(single)-1][0].Size = 1 << 20
+	cats := make([]string, len(single))
 	for i, s := range single {
-		cat := "empty"
+		cats[i] = "empty"
 		if len(s) > 0 {
-			cat = s[0].Cat
+			cats[i] = s[0].Cat
 		}
+	}
+	// SSE fields that carry no frame of ours: typed events with and without data, id / retry alone, runs of blank lines
+	for _, a := range sseFieldAtoms(40) {
+		single = append(single, a.lines)
+		cats = append(cats, a.cat)
+	}
+	for i, s := range single {
+		cat := cats[i]
 		h := i%2 == 0
 		add("before:"+cat, h, "eof", "", append(append([]Line{}, s...), ans, blank())...)
 		add("after:"+cat, !h, "eof", "", append([]Line{ans, blank()}, s...)...)
@@ -412,7 +421,7 @@ func (g *gen) postCases(thorough bool) {
 
 // ---------- GET stream
 
-const getArms = 20
+const getArms = 24
 
 func getAtom(arm int, r *rand.Rand, k *int) atom {
 	sep := sepOf(r)
@@ -451,8 +460,46 @@ func getAtom(arm int, r *rand.Rand, k *int) atom {
 		return atom{"crlf-event", []Line{crlf(dataLine(notifText(*k), sep, 0, "notif")), crlf(blank())}}
 	case 18:
 		return atom{"event-field", []Line{eventLine("message", sep), dataLine(notifText(*k), sep, 0, "notif"), blank()}}
-	default:
+	case 19:
 		return atom{"spaces-not-a-delimiter", []Line{dataLine(notifText(*k), sep, 0, "notif"), spacesLine(" "), blank()}}
+	case 20, 21:
+		return atom{"typed-event-no-data", []Line{eventLine(pick(r, eventNames), sep), blank()}}
+	case 22:
+		return atom{"typed-event-with-data", []Line{eventLine(pick(r, eventNames), sep), dataLine(notifText(*k), sep, 0, "notif"), blank()}}
+	default:
+		as := sseFieldAtoms(*k)
+		return as[r.Intn(len(as))]
+	}
+}
+
+var eventNames = []string{"ping", "keep-alive", "heartbeat", "endpoint", "error", "x"}
+
+// sseFieldAtoms: server-sent-event fields that carry no JSON-RPC frame of ours, the way keep-alive writers, proxies and other
+// servers emit them.  k0 numbers the notifications inside (distinct from the ones around).
+func sseFieldAtoms(k0 int) []atom {
+	ping := func() Line { return eventLine("ping", " ") }
+	nt := func(i int) Line { return dataLine(notifText(k0+i), " ", 0, "notif") }
+	return []atom{
+		{"typed-event-no-data", []Line{ping(), blank()}},
+		{"typed-event-no-data-twice", []Line{ping(), blank(), eventLine("pong", ""), blank()}},
+		{"typed-event-with-data", []Line{ping(), nt(1), blank()}},
+		{"typed-event-garbage-data", []Line{ping(), dataLine("hello", " ", 0, "garbage-data"), blank()}},
+		{"typed-event-empty-data", []Line{ping(), dataLine("", "", 0, "empty-data"), blank()}},
+		{"message-event-no-data", []Line{eventLine("message", " "), blank()}},
+		{"message-event-frame", []Line{eventLine("message", " "), nt(2), blank()}},
+		{"empty-event-name", []Line{eventLine("", ""), blank()}},
+		{"event-field-before-frame", []Line{eventLine("update", " ")}},
+		{"event-field-after-data", []Line{nt(3), eventLine("update", " "), blank()}},
+		{"id-alone", []Line{idLine("41"), blank()}},
+		{"retry-alone", []Line{other("retry: 3000", "other"), blank()}},
+		{"id-and-typed-event-no-data", []Line{idLine("42"), ping(), blank()}},
+		{"typed-event-id-retry-no-data", []Line{eventLine("heartbeat", " "), idLine("43"), other("retry:500", "other"), blank()}},
+		{"blank-lines", []Line{blank(), blank(), blank()}},
+		{"comment-and-typed-event", []Line{comment(" keep-alive", 0), ping(), blank()}},
+		{"crlf-typed-event-no-data", []Line{crlf(ping()), crlf(blank())}},
+		{"indent-typed-event-no-data", []Line{indented(ping()), blank()}},
+		{"typed-event-spaces-then-blank", []Line{ping(), spacesLine(" "), blank()}},
+		{"typed-event-no-data-then-message-frame", []Line{ping(), blank(), eventLine("message", " "), nt(4), blank()}},
 	}
 }
 
@@ -487,6 +534,16 @@ func (g *gen) getCases(thorough bool) {
 		a := getAtom(i, rand.New(rand.NewSource(int64(1000+i))), &k)
 		add("mid:"+a.cat, join(n1, a.lines, n2)...)
 	}
+	// SSE fields that are not ours to decode (typed events with / without data, `event:` fields before / after a well-formed
+	// frame, id / retry alone, runs of blank lines): between two notifications, and as the LAST thing before the closing
+	// well-formed notification every GET case ends with
+	for _, a := range sseFieldAtoms(60) {
+		add("mid:"+a.cat, join(n1, a.lines, n2)...)
+		add("tail:"+a.cat, join(n1, a.lines)...)
+	}
+	add("head:typed-event-no-data", join(sseFieldAtoms(90)[0].lines, n1, n2)...)
+	add("tail:typed-event-no-data-then-request", join(n1, sseFieldAtoms(91)[0].lines,
+		[]Line{dataLine(`{"jsonrpc":"2.0","id":611,"method":"roots/list"}`, " ", 0, "server-request-roots"), blank()})...)
 	// the Scanner's token limit: exact edges, 70 KiB, 1 MiB; as comment, as event data, as unknown field
 	giant := func(label string, l Line) { add(label, join(n1, []Line{l, blank()}, n2)...) }
 	giant("line=65535B", sized(comment(padMark, 0), 65535))
@@ -538,7 +595,7 @@ func endpointEvent(u string, cat string) []Line {
 const msgPath = "/message"
 
 // legacyAtom: i ranges over the pending call indexes, ids[i] their ids
-const legacyArms = 24
+const legacyArms = 31
 
 func legacyAtom(arm int, r *rand.Rand, ids []int, k *int) atom {
 	*k++
@@ -588,8 +645,23 @@ func legacyAtom(arm int, r *rand.Rand, ids []int, k *int) atom {
 		return atom{"giant-answer", msgEvent(resultPadText(id, fmt.Sprint("f", *k)), 70*1024, "answer", r)}
 	case 22:
 		return atom{"endpoint-bad-url", endpointEvent("%zz", "endpoint-bad-url")}
-	default:
+	case 23:
 		return atom{"empty-data", []Line{eventLine("message", " "), dataLine("", "", 0, "empty-data"), blank()}}
+	// typed events without data (keep-alives), fields alone: the type named last stays pending until an event with data ends
+	case 24:
+		return atom{"typed-event-no-data", []Line{eventLine("ping", " "), blank()}}
+	case 25:
+		return atom{"typed-event-no-data-then-untyped-frame", []Line{eventLine("ping", " "), blank(), dataLine(resultText(id, "stale"), " ", 0, "answer"), blank()}}
+	case 26:
+		return atom{"typed-event-no-data-then-message-frame", append([]Line{eventLine("ping", " "), blank()}, msgEvent(notifText(*k), 0, "notif", nil)...)}
+	case 27:
+		return atom{"id-alone", []Line{idLine("51"), blank()}}
+	case 28:
+		return atom{"retry-alone", []Line{other("retry: 3000", "other"), blank(), blank()}}
+	case 29:
+		return atom{"empty-event-name", []Line{eventLine("", ""), dataLine(resultText(9000+*k, "e"), " ", 0, "unknown-id"), blank()}}
+	default:
+		return atom{"server-request-ping", msgEvent(fmt.Sprintf(`{"jsonrpc":"2.0","id":"p%d","method":"ping"}`, *k), 0, "server-request-unknown", r)}
 	}
 }
 
@@ -642,6 +714,58 @@ func (g *gen) legacyCases(thorough bool) {
 	add("json-as-endpoint", ep, 1, func(ids []int) []Line {
 		return join([]Line{eventLine("endpoint", " "), dataLine(resultText(ids[0], "x"), " ", 0, "json-as-endpoint"), blank()}, one(ids))
 	})
+	// --- frames that arrive BEFORE the endpoint event (t.endpoint is still nil), between two endpoint events, and on streams
+	// that never announce a usable endpoint: requests (answered by a POST to the endpoint — when there is one), notifications,
+	// answers (nobody is waiting yet: id 2 is the id the first call WILL carry), errors, garbage
+	rootsReq := func(id int) []Line {
+		return msgEvent(fmt.Sprintf(`{"jsonrpc":"2.0","id":%d,"method":"roots/list"}`, id), 0, "server-request-roots", nil)
+	}
+	unkReq := func(id string) []Line {
+		return msgEvent(fmt.Sprintf(`{"jsonrpc":"2.0","id":%s,"method":"sampling/createMessage","params":{"k":1}}`, id), 0, "server-request-unknown", nil)
+	}
+	pingReq := msgEvent(`{"jsonrpc":"2.0","id":"p1","method":"ping"}`, 0, "server-request-unknown", nil)
+	early := []struct {
+		label string
+		lines []Line
+	}{
+		{"request-before-endpoint", rootsReq(501)},
+		{"request-before-endpoint", unkReq(`"s1"`)},
+		{"request-before-endpoint", pingReq},
+		{"request-before-endpoint", unkReq(`null`)},
+		{"request-before-endpoint", join(rootsReq(502), unkReq(`7`), rootsReq(503), pingReq, rootsReq(504))},
+		{"request-before-endpoint", join([]Line{comment(" connected", 0), blank()}, rootsReq(505))},
+		{"request-before-endpoint", []Line{crlf(eventLine("message", " ")), crlf(dataLine(`{"jsonrpc":"2.0","id":506,"method":"roots/list"}`, " ", 0, "server-request-roots")), crlf(blank())}},
+		{"notification-before-endpoint", msgEvent(notifText(1), 0, "notif", nil)},
+		{"notification-before-endpoint", msgEvent(`{"jsonrpc":"2.0","method":"notifications/tools/list_changed"}`, 0, "notif", nil)},
+		{"answer-before-endpoint", msgEvent(resultText(2, "early"), 0, "answer-early", nil)},
+		{"answer-before-endpoint", msgEvent(resultText(9001, "u"), 0, "unknown-id", nil)},
+		{"answer-before-endpoint", msgEvent(resultText(`"abc"`, "w"), 0, "wrong-typed-id", nil)},
+		{"error-before-endpoint", msgEvent(errorText(2), 0, "rpc-error-early", nil)},
+		{"garbage-before-endpoint", msgEvent(`{"jsonrpc":`, 0, "garbage-data", nil)},
+		{"typed-event-no-data-before-endpoint", []Line{eventLine("ping", " "), blank()}},
+		{"mixed-before-endpoint", join(msgEvent(notifText(2), 0, "notif", nil), rootsReq(507), msgEvent(resultText(2, "early"), 0, "answer-early", nil), unkReq(`"s2"`))},
+	}
+	for _, e := range early {
+		add(e.label, join(e.lines, ep), 1, one)
+	}
+	// the same request id again once the endpoint is known: answered exactly once
+	add("request-before-endpoint", join(rootsReq(510), ep), 1, func(ids []int) []Line { return join(rootsReq(510), one(ids)) })
+	// never a usable endpoint
+	add("request-before-endpoint", rootsReq(520), 0, nil)
+	add("request-before-endpoint", join(unkReq(`"s3"`), endpointEvent("%zz", "endpoint-bad-url")), 0, nil)
+	add("request-before-endpoint", join(endpointEvent("%zz", "endpoint-bad-url"), rootsReq(521), pingReq), 0, nil)
+	add("request-before-endpoint", join(endpointEvent("%zz", "endpoint-bad-url"), rootsReq(522), ep), 1, one)
+	add("request-before-endpoint", join([]Line{eventLine("endpoint", " "), dataLine("", "", 0, "empty-data"), blank()}, unkReq(`8`)), 0, nil)
+	// between two endpoint events
+	add("request-between-endpoints", join(ep, rootsReq(530), ep), 1, one)
+	add("request-between-endpoints", join(ep, unkReq(`"s4"`), msgEvent(notifText(3), 0, "notif", nil), ep), 1, one)
+	add("request-between-endpoints", join(rootsReq(531), ep, rootsReq(532), ep, rootsReq(533)), 1, one)
+	add("request-between-endpoints", ep, 1, func(ids []int) []Line { return join(rootsReq(534), ep, unkReq(`"s5"`), one(ids)) })
+	add("request-between-endpoints", ep, 2, func(ids []int) []Line {
+		return join(msgEvent(resultText(ids[0], "a"), 0, "answer", nil), rootsReq(535), endpointEvent("/other", "endpoint"), pingReq, msgEvent(resultText(ids[1], "b"), 0, "answer", nil))
+	})
+	// a keep-alive's event type stays pending: the data of the next event that names no type is dispatched under it
+	add("typed-event-no-data-then-endpoint-data", []Line{eventLine("endpoint", " "), blank(), dataLine(msgPath, " ", 0, "endpoint-late-data"), blank()}, 1, one).NoEndpoint = false
 	// --- every atom before / after a valid answer, and between the answers of two calls
 	k := 0
 	for i := 0; i < 2*legacyArms; i++ {
@@ -673,7 +797,15 @@ func (g *gen) legacyCases(thorough bool) {
 	for i := 0; i < n; i++ {
 		nc := 1 + g.r.Intn(3)
 		cat := ""
-		add("x", ep, nc, func(ids []int) []Line {
+		pre := ep
+		if g.r.Intn(3) == 0 { // frames before the endpoint event (ids nobody waits for)
+			var lines []Line
+			for j, m := 0, 1+g.r.Intn(3); j < m; j++ {
+				lines = append(lines, legacyAtom(g.r.Intn(legacyArms), g.r, []int{9999}, &k).lines...)
+			}
+			pre = join(lines, ep)
+		}
+		add("x", pre, nc, func(ids []int) []Line {
 			var lines []Line
 			m := 2 + g.r.Intn(7)
 			for j := 0; j < m; j++ {
